@@ -96,6 +96,8 @@ def conn_view(toks):
             emitted[sel].append(int(x.split()[1], 16))
         elif x.startswith("B "):
             cut[sel] = True
+        elif x.startswith("RS "):
+            reqs.append((int(x.split()[1], 16), cur))
         elif x.startswith("RN "):
             _, n, h = x.split()
             reqs += [((int(h, 16) + j) & 0xffffffff, cur) for j in range(int(n))]
@@ -157,7 +159,7 @@ def multi_schedule(r, adversarial=False):
     return toks
 
 
-ARITY = {"BB": 4, "RX": 1, "PL": 2, "R": 1, "G": 1, "W": 0, "WE": 0, "D": 1, "T": 1, "CA": 0, "CF": 0, "SEL": 1, "P": 1, "PS": 2, "PG": 3, "PT": 2, "B": 1, "H": 0, "U": 0, "RN": 2}
+ARITY = {"BB": 4, "RX": 1, "PL": 2, "R": 1, "G": 1, "W": 0, "WE": 0, "D": 1, "T": 1, "CA": 0, "CF": 0, "SEL": 1, "P": 1, "PS": 2, "PG": 3, "PT": 2, "B": 1, "H": 0, "U": 0, "RN": 2, "RS": 2}
 
 
 def regress_schedules(pid):
@@ -475,6 +477,10 @@ def check_C12(chk, tier, seed):
             ["R 51", "W", "R 51", "W", "P 51", "D 0"],
             ["R 51", "W", "R 52", "W", "R 51", "W", "D 0", "P 52", "P 51"],
             ["R 51", "W", "R 51", "W", "R 51", "W", "D 0", "D 1", "P 51"],
+            ["R 51", "W", "RS 51 0", "P 51"],
+            ["R 51", "W", "R 52", "W", "RS 51 0", "P 52", "P 51"],
+            ["R 51", "W", "RS 51 0", "RS 51 1", "T 3e8", "P 51"],
+            ["R 51", "W", "RS 51 0", "P 51", "R 51", "W", "P 51"],
             ["R 51", "W", "R 51", "W", "D 0", "T 3e8", "P 51", "R 53", "W", "P 53"]]):
         cases.append((line(toks), toks, "resend"))
     # MANY requests outstanding when the stream ends (more than any window, table capacity or permit pool a client might keep:
